@@ -3,7 +3,7 @@
    writes and every sequence of read buffer sizes.  Composes the stream layer (FlattenFacts,
    CbcFacts, CtrFacts) with the entry/archive layer (EntryFacts, ArchiveFacts). *)
 From PNA Require Import Base Crc32 Name Codec Chunk Archive Entry Flatten Cbc Ctr Pipeline
-  BaseFacts NameFacts CodecFacts Crc32Facts ChunkFacts ArchiveFacts EntryFacts
+  BaseFacts NameFacts CodecFacts Crc32Facts ChunkFacts ArchiveFacts PiecesFacts EntryFacts
   FlattenFacts CbcFacts CtrFacts StreamFacts.
 Require Import ZArith ZifyN ZifyNat ZifyBool.
 Open Scope N_scope.
@@ -25,13 +25,105 @@ Proof.
   induction ps as [|p ps IH]; [reflexivity|]. destruct p; cbn [filter ne concat app]; [exact IH|]. rewrite IH. reflexivity.
 Qed.
 
-(* the model of the FlattenWriter sink is Flatten.flatten_write for pieces that fit one chunk *)
-Lemma flat_sink_faithful (n : nat) ps : (0 < n)%nat -> Forall (fun p => (length p <= n)%nat) ps ->
-  concat (map (chunks n) ps) = flat_sink ps.
+(* ---- the two sinks, for every bound and every write length -------------------------------------------------- *)
+(* slice::chunks(n) with a unary bound (Flatten.chunks) is Chunk.pieces with the bound in N *)
+Lemma splitN_firstn {A} : forall (l : list A) n, splitN (N.of_nat n) l = (firstn n l, skipn n l).
 Proof.
-  intros Hn H. induction H as [|p ps Hp _ IH]; [reflexivity|]. cbn [map concat]. unfold flat_sink in *. cbn [filter].
-  destruct p as [|b p]; cbn [ne]; [rewrite chunks_nil; exact IH|].
-  rewrite chunks_small by (try discriminate; exact Hp). rewrite IH. reflexivity.
+  induction l as [|x r IH]; intros n; [destruct n; reflexivity|]. cbn [splitN].
+  destruct n as [|n]; [reflexivity|]. replace (N.of_nat (S n) =? 0) with false by (symmetry; apply N.eqb_neq; lia).
+  replace (N.pred (N.of_nat (S n))) with (N.of_nat n) by lia. rewrite IH. reflexivity.
+Qed.
+Lemma chunks_pieces {A} (n : nat) (l : list A) : chunks n l = pieces (N.of_nat n) l.
+Proof.
+  unfold chunks, pieces. generalize (length l) as fuel. intros fuel. revert l.
+  induction fuel as [|f IH]; intros l; [reflexivity|]. cbn [chunks_fuel pieces_fuel].
+  destruct l as [|x r]; [reflexivity|]. rewrite splitN_firstn. f_equal. apply IH.
+Qed.
+(* the model of the FlattenWriter sink is Flatten.flatten_write, for every write *)
+Lemma flat_sink_faithful (n : nat) ps : concat (map (chunks n) ps) = flat_sink_at (N.of_nat n) ps.
+Proof.
+  unfold flat_sink_at. induction ps as [|p ps IH]; [reflexivity|]. cbn [map concat flat_map]. rewrite IH, chunks_pieces. reflexivity.
+Qed.
+Lemma flat_sink_at_cut cmax ps : flat_sink_at cmax ps = cutN cmax ps.
+Proof. reflexivity. Qed.
+Lemma flat_sink_at_concat cmax ps : 0 < cmax -> concat (flat_sink_at cmax ps) = concat ps.
+Proof. apply cutN_concat. Qed.
+Lemma flat_sink_at_bounded cmax ps : 0 < cmax -> Forall (fun p => p <> [] /\ len p <= cmax) (flat_sink_at cmax ps).
+Proof. apply cutN_bounded. Qed.
+Lemma flat_sink_concat ps : concat (flat_sink ps) = concat ps.
+Proof. apply flat_sink_at_concat, CMAX_pos. Qed.
+Lemma flat_sink_bounded ps : Forall (fun p => ne p = true /\ len p < 2 ^ 32) (flat_sink ps).
+Proof.
+  eapply Forall_impl; [|exact (flat_sink_at_bounded CMAX ps CMAX_pos)]. intros p (Np & Lp).
+  split; [destruct p; [contradiction|reflexivity]|apply CMAX_lt; exact Lp].
+Qed.
+Lemma flat_sink_nonempty ps : Forall (fun x => ne x = true) (flat_sink ps).
+Proof. eapply Forall_impl; [|exact (flat_sink_bounded ps)]. intros p (H & _). exact H. Qed.
+(* writes of less than 2^32 bytes: only the empty ones go (the sink of before the generalisation) *)
+Lemma flat_sink_small ps : Forall (fun p => len p < 2 ^ 32) ps -> flat_sink ps = filter ne ps.
+Proof.
+  intros H. unfold flat_sink. rewrite flat_sink_at_cut, cutN_small; [reflexivity|].
+  eapply Forall_impl; [|exact H]. intros p. apply CMAX_lt.
+Qed.
+Lemma flat_sink_sum_len ps : sum_len (flat_sink ps) = sum_len ps.
+Proof. rewrite !sum_len_concat, flat_sink_concat. reflexivity. Qed.
+
+(* ChunkStreamWriter::write (45407aa2) *)
+Lemma sink_write_nil cmax : sink_write cmax [] = [[]].
+Proof. reflexivity. Qed.
+Lemma sink_write_small cmax p : len p <= cmax -> sink_write cmax p = [p].
+Proof. intros H. destruct p as [|b p]; [reflexivity|]. cbn [sink_write]. apply pieces_small; [discriminate|exact H]. Qed.
+Lemma sink_write_concat cmax p : 0 < cmax -> concat (sink_write cmax p) = p.
+Proof. intros K. destruct p as [|b p]; [reflexivity|]. cbn [sink_write]. apply pieces_concat. exact K. Qed.
+Lemma sink_write_bounded cmax p : 0 < cmax -> Forall (fun q => len q <= cmax) (sink_write cmax p).
+Proof.
+  intros K. destruct p as [|b p]; [constructor; [unfold len; cbn; lia|constructor]|]. cbn [sink_write].
+  eapply Forall_impl; [|exact (pieces_bounded cmax (b :: p) K)]. intros q (_ & H). exact H.
+Qed.
+Lemma sink_write_nonnil cmax p : 0 < cmax -> sink_write cmax p <> [].
+Proof. intros K. destruct p as [|b p]; [discriminate|]. cbn [sink_write]. apply pieces_nonnil; [exact K|discriminate]. Qed.
+(* every chunk the sink emits has a payload of at most cmax bytes *)
+Theorem chunk_sink_at_bounded cmax ps : 0 < cmax -> Forall (fun q => len q <= cmax) (chunk_sink_at cmax ps).
+Proof.
+  intros K. unfold chunk_sink_at. induction ps as [|p ps IH]; [constructor|]. cbn [flat_map].
+  apply Forall_app. split; [apply sink_write_bounded; exact K|exact IH].
+Qed.
+(* the chunks' payloads, concatenated, are the writes, concatenated *)
+Theorem chunk_sink_at_concat cmax ps : 0 < cmax -> concat (chunk_sink_at cmax ps) = concat ps.
+Proof.
+  intros K. unfold chunk_sink_at. induction ps as [|p ps IH]; [reflexivity|]. cbn [flat_map concat].
+  rewrite concat_app, IH, sink_write_concat by exact K. reflexivity.
+Qed.
+(* writes of at most cmax bytes — the empty write included — are one chunk each, as before the fix *)
+Theorem chunk_sink_at_small cmax ps : Forall (fun p => len p <= cmax) ps -> chunk_sink_at cmax ps = ps.
+Proof.
+  unfold chunk_sink_at. induction 1 as [|p ps Hp _ IH]; [reflexivity|]. cbn [flat_map].
+  rewrite sink_write_small, IH by exact Hp. reflexivity.
+Qed.
+Lemma chunk_sink_at_app cmax a b : chunk_sink_at cmax (a ++ b) = chunk_sink_at cmax a ++ chunk_sink_at cmax b.
+Proof. unfold chunk_sink_at. apply flat_map_app. Qed.
+(* no write is lost: at least one chunk per write *)
+Lemma chunk_sink_at_length cmax ps : 0 < cmax -> (length ps <= length (chunk_sink_at cmax ps))%nat.
+Proof.
+  intros K. unfold chunk_sink_at. induction ps as [|p ps IH]; [cbn; lia|]. cbn [flat_map length]. rewrite app_length.
+  pose proof (sink_write_nonnil cmax p K). destruct (sink_write cmax p); [contradiction|cbn [length]; lia].
+Qed.
+Lemma chunk_sink_bounded ps : Forall (fun q => len q < 2 ^ 32) (chunk_sink ps).
+Proof. eapply Forall_impl; [|exact (chunk_sink_at_bounded CMAX ps CMAX_pos)]. intros q. apply CMAX_lt. Qed.
+Lemma chunk_sink_concat ps : concat (chunk_sink ps) = concat ps.
+Proof. apply chunk_sink_at_concat, CMAX_pos. Qed.
+Lemma chunk_sink_small ps : Forall (fun p => len p < 2 ^ 32) ps -> chunk_sink ps = ps.
+Proof. intros H. apply chunk_sink_at_small. eapply Forall_impl; [|exact H]. intros p. apply CMAX_lt. Qed.
+Lemma chunk_sink_sum_len ps : sum_len (chunk_sink ps) = sum_len ps.
+Proof. rewrite !sum_len_concat, chunk_sink_concat. reflexivity. Qed.
+(* the sink before 45407aa2 with a bound of 3 bytes: the write 1 2 3 4 5 is one chunk of 5 bytes; the repaired sink
+   makes 1 2 3 | 4 5 of it *)
+Lemma chunk_sink_unrepaired :
+  exists ps, ~ Forall (fun q => len q <= 3) (chunk_sink_orig ps) /\
+             chunk_sink_at 3 ps = [[x01; x02; x03]; [x04; x05]] /\ concat (chunk_sink_at 3 ps) = concat ps.
+Proof.
+  exists [[x01; x02; x03; x04; x05]]. split; [|split; vm_compute; reflexivity].
+  intro H. inversion H as [|? ? H1 _]; subst. vm_compute in H1. apply H1. reflexivity.
 Qed.
 
 (* positive buffer sizes, more reads than bytes: some read returns nothing *)
@@ -206,7 +298,7 @@ Proof.
   intros Hctx Hc Hpos Hcov. unfold Pipeline.decode_normal, Pipeline.build_normal. cbv zeta.
   cbn [n_hdr n_phsf n_data f_comp f_enc f_mode]. unfold Pipeline.build_data.
   rewrite (stream_roundtrip _ ctx pw (eff_wcuts (sp_kind sp) wcuts)); try assumption; [rewrite Hc; reflexivity|].
-  unfold flat_sink. apply concat_filter_ne.
+  apply flat_sink_concat.
 Qed.
 
 Lemma eff_wcuts_file sp wcuts : sp_kind sp = KFile -> eff_wcuts (sp_kind sp) wcuts = wcuts.
@@ -248,15 +340,12 @@ Proof. intros Hok H. unfold Pipeline.data_pieces. apply cwrite_concat; [exact Ho
 Lemma build_data_concat cfg ctx w1 w2 : key_iv_ok (c_key ctx) (c_iv ctx) = true -> concat w1 = concat w2 ->
   concat (build_data cfg ctx w1) = concat (build_data cfg ctx w2).
 Proof.
-  intros Hok H. unfold Pipeline.build_data, flat_sink. rewrite !concat_app, !concat_filter_ne.
+  intros Hok H. unfold Pipeline.build_data. rewrite !concat_app, !flat_sink_concat.
   rewrite (data_pieces_concat cfg ctx w1 w2) by assumption. reflexivity.
 Qed.
 
 Lemma sum_len_concat (l : list bytes) : fold_left N.add (map len l) 0 = len (concat l).
-Proof.
-  change (sum_len l = len (concat l)). induction l as [|d l IH]; [reflexivity|].
-  rewrite sum_len_cons, IH. cbn [concat]. rewrite len_app. reflexivity.
-Qed.
+Proof. exact (EntryFacts.sum_len_concat l). Qed.
 
 (* two slicings of the same content, two sequences of buffer sizes: the same decoded bytes, and the built
    entries are equal except for where n_data is cut *)
@@ -309,17 +398,29 @@ Proof. apply Forall_forall. intros x Hx. apply filter_In in Hx. apply Hx. Qed.
 Lemma build_data_nonempty cfg ctx pw wcuts : wf_ctx ctx pw ->
   Forall (fun d => nonempty d = true) (build_data cfg ctx wcuts).
 Proof.
-  intros Hctx. unfold Pipeline.build_data, iv_part, flat_sink. apply Forall_app. split; [|apply filter_ne_all].
+  intros Hctx. unfold Pipeline.build_data, iv_part. apply Forall_app. split; [|apply flat_sink_nonempty].
   destruct (encrypted cfg); constructor; [|constructor].
   pose proof (iv_len _ _ Hctx) as L. destruct (c_iv ctx); [discriminate L|reflexivity].
 Qed.
 
-(* a built entry holds no empty payload: re-serialising it loses nothing *)
+(* ... and none of 2^32 bytes or more: the FlattenWriter has cut the compressed / encrypted stream already *)
+Lemma build_data_pieces cfg ctx pw wcuts : wf_ctx ctx pw ->
+  Forall (fun p => p <> [] /\ len p <= CMAX) (build_data cfg ctx wcuts).
+Proof.
+  intros Hctx. unfold Pipeline.build_data, iv_part. apply Forall_app. split; [|apply flat_sink_at_bounded, CMAX_pos].
+  destruct (encrypted cfg); constructor; [|constructor].
+  pose proof (iv_len _ _ Hctx) as L. split; [destruct (c_iv ctx); [discriminate L|discriminate]|].
+  apply CMAX_lt. unfold len. rewrite L. change (2 ^ 32) with 4294967296. lia.
+Qed.
+Lemma cut_data_build cfg ctx pw wcuts : wf_ctx ctx pw -> cut_data (build_data cfg ctx wcuts) = build_data cfg ctx wcuts.
+Proof. intros Hctx. apply cutN_fixed. eapply build_data_pieces; exact Hctx. Qed.
+
+(* a built entry holds no empty payload and none that has to be cut: re-serialising it loses nothing *)
 Lemma normalize_build cfg ctx pw sp wcuts : wf_ctx ctx pw ->
   normalize (build_normal cfg ctx sp wcuts) = build_normal cfg ctx sp wcuts.
 Proof.
   intros Hctx. unfold normalize, Pipeline.build_normal. cbv zeta. cbn [n_hdr n_phsf n_extra n_data n_meta n_xattrs].
-  rewrite (filter_id nonempty) by (eapply build_data_nonempty; exact Hctx). reflexivity.
+  rewrite (cut_data_build _ ctx pw) by exact Hctx. reflexivity.
 Qed.
 
 Theorem metadata_roundtrip cfg ctx pw sp wcuts : wf_spec sp -> wf_ctx ctx pw -> concat (eff_wcuts (sp_kind sp) wcuts) = sp_content sp ->
@@ -346,8 +447,15 @@ Qed.
 Definition fits (e : normal_entry) : Prop :=
   6 + len (f_name (n_hdr e)) < 2 ^ 32 /\ opt_all (fun s => len s < 2 ^ 32) (n_phsf e) /\
   Forall wf_chunk (n_extra e) /\ Forall (fun c => is_term c = false) (n_extra e) /\
-  Forall (fun d => len d < 2 ^ 32) (n_data e) /\
   Forall (fun x => 8 + len (x_name x) + len (x_value x) < 2 ^ 32) (n_xattrs e).
+(* nothing is asked of the data payloads: into_chunks cuts a payload of 2^32 bytes or more into several FDAT chunks
+   (Entry.data_chunks), every one of them fits (data_chunks_fit) *)
+Lemma data_chunks_fit t d : length t = 4%nat -> Forall wf_chunk (data_chunks t d).
+Proof.
+  intros Lt. unfold data_chunks, data_chunks_at. apply Forall_forall. intros c Hc. apply in_map_iff in Hc.
+  destruct Hc as (p & <- & Hp). pose proof (pieces_bounded CMAX d CMAX_pos) as B. rewrite Forall_forall in B.
+  destruct (B p Hp) as (_ & Lp). split; [exact Lt|]. cbn [mk cdata]. apply CMAX_lt. exact Lp.
+Qed.
 
 Definition okc (c : chunk) : Prop := wf_chunk c /\ is_term c = false.
 
@@ -367,7 +475,7 @@ Qed.
 Lemma ser_normal_body e : wf_normal e -> fits e ->
   exists body, ser_normal e = body ++ [mk FEND []] /\ Forall okc body.
 Proof.
-  intros (W1 & W2 & W3 & W4 & W5 & W6 & W7 & W8 & W9 & W10 & W11 & W12) (F1 & F2 & F3 & F4 & F5 & F6).
+  intros (W1 & W2 & W3 & W4 & W5 & W6 & W7 & W8 & W9 & W10 & W11 & W12) (F1 & F2 & F3 & F4 & F6).
   unfold ser_normal. cbv zeta.
   eexists. split; [rewrite !app_assoc; reflexivity|].
   repeat (apply Forall_app; split).
@@ -379,9 +487,9 @@ Proof.
     pose proof (fsiz_to_bytes_length n). unfold len. lia.
   - apply okc_opt; [reflexivity|reflexivity|exact F2].
   - apply Forall_forall. intros c Hc. apply in_concat in Hc. destruct Hc as (l & Hl & Hc).
-    apply in_map_iff in Hl. destruct Hl as (d & <- & Hd). rewrite Forall_forall in F5. specialize (F5 d Hd).
-    destruct d as [|b d]; cbn [data_chunks] in Hc; [contradiction|]. destruct Hc as [<-|[]].
-    split; [split; [reflexivity|exact F5]|reflexivity].
+    apply in_map_iff in Hl. destruct Hl as (d & <- & Hd).
+    pose proof (data_chunks_fit FDAT d eq_refl) as DF. rewrite Forall_forall in DF. split; [exact (DF c Hc)|].
+    unfold data_chunks, data_chunks_at in Hc. apply in_map_iff in Hc. destruct Hc as (q & <- & _). reflexivity.
   - apply okc_opt; [reflexivity|reflexivity|]. destruct (m_ctime (n_meta e)); cbn [opt_all]; [|exact I].
     unfold time_to_bytes, be64, len. rewrite be_length. lia.
   - apply okc_opt; [reflexivity|reflexivity|]. destruct (m_mtime (n_meta e)); cbn [opt_all]; [|exact I].
@@ -482,9 +590,10 @@ Proof.
   rewrite <- app_assoc, sum_len_cons, N.add_assoc. reflexivity.
 Qed.
 
-(* what the reader gets for a streamed file: no fSIZ (raw size unknown), empty writes kept as empty chunks *)
+(* what the reader gets for a streamed file: no fSIZ (raw size unknown), empty writes kept as empty chunks, a write
+   of 2^32 bytes or more as several chunks (chunk_sink) *)
 Definition streamed_entry (cfg : config) (ctx : cctx) (sp : spec) (wcuts : list bytes) : normal_entry :=
-  let data := iv_part cfg ctx ++ data_pieces cfg ctx wcuts in
+  let data := iv_part cfg ctx ++ chunk_sink (data_pieces cfg ctx wcuts) in
   {| n_hdr := {| f_major := 0; f_minor := 0; f_kind := KFile; f_comp := g_comp cfg;
                  f_enc := g_enc cfg; f_mode := g_mode cfg; f_name := sp_name sp |};
      n_phsf := phsf_part cfg ctx; n_extra := []; n_data := data;
@@ -496,7 +605,7 @@ Lemma parse_stream_file cfg ctx pw sp wcuts : wf_spec sp -> wf_ctx ctx pw ->
   parse_normal (stream_file_chunks cfg ctx sp wcuts) = Ok (streamed_entry cfg ctx sp wcuts).
 Proof.
   intros (S1 & S2 & S3 & S4 & S5 & S6 & S7 & S8 & S9) (_ & _ & Hu).
-  unfold Pipeline.stream_file_chunks, parse_normal, streamed_entry, chunk_sink. cbv zeta. cbn [app]. tysimp. cbn [negb].
+  unfold Pipeline.stream_file_chunks, parse_normal, streamed_entry. cbv zeta. cbn [app]. tysimp. cbn [negb].
   rewrite seg_fhed by (apply fhed_inv; unfold wf_fhed; cbn; repeat split; (assumption || lia)).
   rewrite seg_ctime by exact S4. rewrite seg_mtime by exact S5. rewrite seg_atime by exact S6.
   rewrite seg_perm by exact S7.
@@ -524,7 +633,7 @@ Proof.
   split; [apply (parse_stream_file cfg ctx pw); assumption|]. repeat split.
   intros rbufs Hp Hcov. unfold Pipeline.decode_normal, streamed_entry. cbv zeta.
   cbn [n_hdr n_phsf n_data f_comp f_enc f_mode].
-  rewrite (stream_roundtrip cfg ctx pw wcuts); try assumption; [rewrite Hc; reflexivity|reflexivity].
+  rewrite (stream_roundtrip cfg ctx pw wcuts); try assumption; [rewrite Hc; reflexivity|apply chunk_sink_concat].
 Qed.
 
 (* the streamed file inside an archive *)
@@ -616,7 +725,7 @@ Theorem solid_roundtrip cfg ctx pw extra inner swcuts rbufs :
 Proof.
   intros Hctx Hw Hf Hc Hp Hcov. unfold Pipeline.decode_solid, Pipeline.build_solid.
   cbn [so_hdr so_phsf so_data s_comp s_enc s_mode]. unfold Pipeline.build_data.
-  rewrite (stream_roundtrip cfg ctx pw swcuts); try assumption; [|unfold flat_sink; apply concat_filter_ne].
+  rewrite (stream_roundtrip cfg ctx pw swcuts); try assumption; [|apply flat_sink_concat].
   cbn [bind]. rewrite Hc. rewrite inner_loop_entries; try assumption; [reflexivity|].
   pose proof (solid_stream_length inner). lia.
 Qed.
@@ -647,12 +756,12 @@ Qed.
    decodes to the inner entries *)
 Definition solid_streamed (cfg : config) (ctx : cctx) (swcuts : list bytes) : solid_entry :=
   {| so_hdr := {| s_major := 0; s_minor := 0; s_comp := g_comp cfg; s_enc := g_enc cfg; s_mode := g_mode cfg |};
-     so_phsf := phsf_part cfg ctx; so_data := iv_part cfg ctx ++ data_pieces cfg ctx swcuts; so_extra := [] |}.
+     so_phsf := phsf_part cfg ctx; so_data := iv_part cfg ctx ++ chunk_sink (data_pieces cfg ctx swcuts); so_extra := [] |}.
 
 Lemma parse_solid_archive cfg ctx pw swcuts : wf_ctx ctx pw ->
   parse_solid (solid_archive_chunks cfg ctx swcuts) = Ok (solid_streamed cfg ctx swcuts).
 Proof.
-  intros (_ & _ & Hu). unfold Pipeline.solid_archive_chunks, parse_solid, solid_streamed, chunk_sink.
+  intros (_ & _ & Hu). unfold Pipeline.solid_archive_chunks, parse_solid, solid_streamed.
   cbn [app]. tysimp. cbn [negb].
   rewrite sseg_shed by (split; cbn; lia).
   rewrite sseg_phsf by (unfold phsf_part; destruct (encrypted cfg); cbn [opt_all]; [exact Hu|exact I]).
@@ -669,7 +778,7 @@ Proof.
   intros Hctx Hw Hf Hc Hp Hcov. exists (solid_streamed cfg ctx swcuts).
   split; [apply (parse_solid_archive cfg ctx pw); exact Hctx|].
   unfold Pipeline.decode_solid, solid_streamed. cbn [so_hdr so_phsf so_data s_comp s_enc s_mode].
-  rewrite (stream_roundtrip cfg ctx pw swcuts); try assumption; [|reflexivity].
+  rewrite (stream_roundtrip cfg ctx pw swcuts); try assumption; [|apply chunk_sink_concat].
   cbn [bind]. rewrite Hc. rewrite inner_loop_entries; try assumption; [reflexivity|].
   pose proof (solid_stream_length inner). lia.
 Qed.
